@@ -119,17 +119,35 @@ Ranges == {<<r1>> : r1 \in FieldRanges(F1)} \cup {<<r1, r2>> : r1 \in FieldRange
 Query(q) == /\ RecordHist /\ UNCHANGED <<cur, pend, hasCp, cpCur, cpPend, maxPending>>
             /\ hist' = Append(hist, [a |-> "Query", args |-> <<>>, exp |-> Proj(cur, pend), q |-> q])
 
-\* In simulation mode TLC picks uniformly among successor states; query parameters are therefore drawn with
-\* RandomElement bound by \E over a singleton (evaluated once; one successor per query kind) so that queries do not swamp the mutators.
-QRange == \E r \in {RandomElement(Ranges)} : Query([kind |-> "range", r |-> r, res |-> RangeEntries(cur, r)])
+\* Query parameters. TLC's RandomElement is useless here (measured: 3 distinct ranges in 300 behaviours - the n-th call returns
+\* the same element in every behaviour), so parameters are a function of a hash of the current state and the step number: different
+\* behaviours visit different states and therefore ask different questions; one successor per query kind keeps queries from
+\* swamping the mutators in simulation mode (TLC picks uniformly among successor states).
+RECURSIVE SortInts(_)
+SortInts(S) == IF S = {} THEN <<>> ELSE LET m == CHOOSE x \in S : \A y \in S : x <= y IN <<m>> \o SortInts(S \ {m})
+BoundSeq(F) == LET fs == SortInts(F) n == Len(fs) IN
+               << <<"none", 0>> >> \o [i \in 1..(2 * n) |-> <<IF i <= n THEN "incl" ELSE "excl", fs[((i - 1) % n) + 1]>>]
+NthFieldRange(F, n) == LET bs == BoundSeq(F) nb == Len(bs) IN <<bs[(n % nb) + 1], bs[((n \div nb) % nb) + 1]>>
+StateHash == LET ks == AllKeys IN
+             Len(hist) * 7919 + Cardinality(pend) * 101 + (IF hasCp THEN 53 ELSE 0) + maxPending * 1009
+             + (LET RECURSIVE Sum(_) Sum(i) == IF i = 0 THEN 0 ELSE cur[ks[i]] * (i * i * 31 + 17) + cpCur[ks[i]] * (i * 13 + 5) + Sum(i - 1) IN Sum(Len(ks)))
 KeyOrNone == Key \cup {<<>>}
-QKeyRange == \E s \in {RandomElement(KeyOrNone)} : \E t \in {RandomElement(KeyOrNone)} :
-                Query([kind |-> "keyrange", start |-> s, stop |-> t, res |-> KeyRangeEntries(cur, s, t),
+KeyOrNoneSeq == <<<<>>>> \o AllKeys \o <<<<>>>>
+NthKeyOrNone(n) == KeyOrNoneSeq[(n % Len(KeyOrNoneSeq)) + 1]
+
+\* every third range query is over the first field only (a prefix range)
+QRange == LET h == StateHash
+              r == IF h % 3 = 0 THEN <<NthFieldRange(F1, h \div 3)>>
+                   ELSE <<NthFieldRange(F1, h \div 3), NthFieldRange(F2, h \div 87)>>
+          IN Query([kind |-> "range", r |-> r, res |-> RangeEntries(cur, r)])
+QKeyRange == LET h == StateHash s == NthKeyOrNone(h \div 2) t == NthKeyOrNone(h \div 14)
+             IN Query([kind |-> "keyrange", start |-> s, stop |-> t, res |-> KeyRangeEntries(cur, s, t),
                        card |-> KeyRangeCard(cur, s, t)])
-QOrdinal == \E k \in {RandomElement(Key)} : Query([kind |-> "ordinal", k |-> k, res |-> OrdinalOf(cur, k)])
-QOrdRange == \E a \in {RandomElement(0..Count(cur))} : \E b \in {RandomElement(a..Count(cur))} :
-                Query([kind |-> "ordrange", a |-> a, b |-> b, res |-> OrdinalRange(cur, a, b)])
-QPrefix == \E p \in {RandomElement(F1)} : Query([kind |-> "prefix", p |-> p, res |-> GetPrefix(cur, p), has |-> HasPrefix(cur, p)])
+QOrdinal == LET k == AllKeys[(StateHash % Len(AllKeys)) + 1] IN Query([kind |-> "ordinal", k |-> k, res |-> OrdinalOf(cur, k)])
+QOrdRange == LET h == StateHash a == h % (Count(cur) + 1) b == a + ((h \div 7) % (Count(cur) - a + 1))
+             IN Query([kind |-> "ordrange", a |-> a, b |-> b, res |-> OrdinalRange(cur, a, b)])
+QPrefix == LET p == SortInts(F1)[(StateHash % Cardinality(F1)) + 1]
+           IN Query([kind |-> "prefix", p |-> p, res |-> GetPrefix(cur, p), has |-> HasPrefix(cur, p)])
 
 Mutate == \/ \E k \in Key, v \in Val : Put(k, v)
           \/ \E k \in Key : Delete(k)
